@@ -1,7 +1,7 @@
 #!/bin/sh
 # Runs the repository's pinned test command and compares the passing set with /root/.vp/BASELINE.json.
 OUT=${1:-/tmp/verif-baseline.junit.xml}
-cd /repo && /venv/bin/python -m pytest -ra -q -p no:cacheprovider --timeout=900 --continue-on-collection-errors --junitxml="$OUT" > "$OUT.log" 2>&1
+cd "${REPO_DIR:-/repo}" && /venv/bin/python -m pytest -ra -q -p no:cacheprovider --timeout=900 --continue-on-collection-errors --junitxml="$OUT" > "$OUT.log" 2>&1
 python3 - "$OUT" <<'PY'
 import json, sys, xml.etree.ElementTree as ET
 base = set(json.load(open('/root/.vp/BASELINE.json'))['stable_pass'])
